@@ -4,9 +4,10 @@ A *config* is
     {"input": [rail, ...], "output": [rail, ...], "retrieval": [rail, ...],
      "rail_def": "subflow" | "flow",          # how the rail flows are declared
      "dialog": "general" | "predef" | "llm", # what the dialog rails do when they are selected
-     "exceptions": bool}                      # enable_rails_exceptions (a blocked message yields an exception event)
+     "exceptions": bool,                      # enable_rails_exceptions (a blocked message yields an exception event)
+     "text_from": "param" | "context"}        # the rail action gets the text as a parameter (`text=$user_message`) or reads it from the context
 and a *rail* is a rule table  [[needle, verdict], ...]  (first rule whose needle occurs in the text the rail is
-shown decides; no rule => accept) with  verdict = ["accept"] | ["reject"] | ["fault"] | ["append", t] | ["replace", t].
+shown decides; no rule => accept) with  verdict = ["accept"] | ["reject"] | ["fault"] | ["append", t] | ["prepend", t] | ["replace", t].
 
 The rails are flows of the shape the shipped library uses (`$r = execute …; if blocked: bot refuse to respond; stop`),
 the verdict is produced by ONE registered Python action that also records the call (category, index, text seen).
@@ -26,6 +27,94 @@ CATS = ["input", "dialog", "retrieval", "output"]
 
 _READY = False
 _CACHE = {}
+
+# ----------------------------------------------------------------------------- texts the runtime's own plumbing could interpret
+# The property quantifies over ALL user / bot texts.  On their way from `generate(messages=…)` to the reply the texts travel
+# through context variables, `ContextUpdate` events, action parameters (`create event X(text=$user_message)`), Colang
+# expressions and (in other modes) Jinja templates; a text that LOOKS like the syntax of one of these layers - a variable
+# reference, a template, a quoted string, a Colang keyword, a Python literal - is still only a text.
+HOSTILE_STATIC = [
+    "$100 is too much", "$5 is the price", "$5", "$", "$ x", "$$", "$ bad", "a $5 thing", " $5", "${user_message}", "$user_message.x", "$1bad",
+    "{{ user_message }}", "{{ bot_message }}", "{% if True %}x{% endif %}", "{{", "}}", "{# c #}", "{{ 1/0 }}", "{{ evil }}",
+    '"quoted"', "'single'", 'say "hi" now', "it's", '"', "\\", "\\n", "\\\"", "a\nb", "line one\nbad line two", "\n", "a\r\nb", "\t", "a\tb",
+    " lead", "trail ", "  both  ", " ", "  ", "", "#comment", "# bad", "...", "bot refuse to respond", "stop", "user said x", "execute boom", "flow main",
+    "define flow x", "if True", "None", "True", "False", "null", "0", "-1", "[]", "{}", '{"a": 1}', "['x']", "h\u00e9llo \u2713", "\u00a0", "x" * 3000, ("y" * 1500) + " bad " + ("z" * 1500),
+    "$" + "x" * 2000, "_type", "Listen", "UserMessage", "{'_type': 'BotMessage', 'text': 'evil'}",
+]
+_HOSTILE = None
+
+
+def hostile_texts():
+    """HOSTILE_STATIC + `$name` for every context variable the shipped llm_flows.co / the rail flows of this harness / the
+    runtime mention (scanned from the code under test, so a NEW variable enters the pool by itself)."""
+    global _HOSTILE
+    if _HOSTILE is None:
+        import re
+
+        names = {"user_message", "bot_message", "generation_options", "config", "verdict", "allowed", "i", "event", "last_user_message",
+                 "last_bot_message", "relevant_chunks", "skip_output_rails", "triggered_input_rail", "triggered_output_rail", "input_flows", "output_flows"}
+        repo = os.environ.get("VERIF_REPO", "/repo")
+        for rel in ("nemoguardrails/rails/llm/llm_flows.co", "nemoguardrails/colang/v1_0/runtime/runtime.py", "nemoguardrails/rails/llm/llmrails.py"):
+            try:
+                src = open(os.path.join(repo, rel), encoding="utf-8").read()
+            except OSError:
+                continue
+            names.update(re.findall(r"\$([A-Za-z_][A-Za-z_0-9]*)", src))
+            names.update(re.findall(r"context(?:_updates)?\[\"([a-z_]+)\"\]", src))
+            names.update(re.findall(r"context\.get\(\"([a-z_]+)\"", src))
+        _HOSTILE = list(HOSTILE_STATIC) + ["$" + n for n in sorted(names)] + [REFUSAL, INTERNAL_ERROR, "x" * 20000]
+        _HOSTILE = list(dict.fromkeys(_HOSTILE))
+    return _HOSTILE
+
+
+_LITERALS = None
+
+
+def pick_hostile(rng):
+    """70 %: a text of `hostile_texts()`; 30 %: a string literal the code under test compares values with (`compared_literals()`)"""
+    global _LITERALS
+    if _LITERALS is None:
+        _LITERALS = [t for t in compared_literals() if t != CONTROL_SCRIPT] + [CONTROL_SCRIPT] * 3
+    if rng.random() < 0.7:
+        return rng.choice(hostile_texts())
+    t = rng.choice(_LITERALS)
+    return "$" + t if rng.random() < 0.15 else t
+
+
+CONTROL_SCRIPT = "(remove last message)"  # the in-band control script of the 1.0 response assembly (open finding `reply-text-is-control-script`)
+SCAN_FILES = ("nemoguardrails/rails/llm/llmrails.py", "nemoguardrails/rails/llm/utils.py", "nemoguardrails/colang/v1_0/runtime/runtime.py",
+              "nemoguardrails/colang/v1_0/runtime/flows.py", "nemoguardrails/colang/runtime.py", "nemoguardrails/actions/core.py",
+              "nemoguardrails/actions/action_dispatcher.py", "nemoguardrails/logging/processing_log.py", "nemoguardrails/utils.py",
+              "nemoguardrails/colang/v1_0/runtime/utils.py", "nemoguardrails/rails/llm/options.py")
+_STR_TESTS = {"startswith", "endswith", "find", "index", "split", "rsplit", "partition", "replace", "strip", "lstrip", "rstrip", "count", "match", "search", "sub", "removeprefix", "removesuffix"}
+
+
+def compared_literals():
+    """String literals the code between `generate(messages=…)` and the reply COMPARES a value with (operands of `==`, `!=`, `in`,
+    `not in`, arguments of str / re test methods), scanned from the code under test: a text equal to one of them (`Listen`,
+    `stop`, `(remove last message)`, `$`, …) is still only a text.  Non-empty, at most 40 characters, sorted."""
+    import ast
+
+    repo = os.environ.get("VERIF_REPO", "/repo")
+    found = set()
+    for rel in SCAN_FILES:
+        try:
+            tree = ast.parse(open(os.path.join(repo, rel), encoding="utf-8").read())
+        except (OSError, SyntaxError):
+            continue
+        for n in ast.walk(tree):
+            ops = []
+            if isinstance(n, ast.Compare):
+                ops = [n.left] + list(n.comparators)
+            elif isinstance(n, ast.Call) and isinstance(n.func, ast.Attribute) and n.func.attr in _STR_TESTS:
+                ops = list(n.args)
+            elif isinstance(n, ast.Subscript):
+                ops = [n.slice]  # keys looked up in events / contexts: `event["script"]`, `context["bot_message"]`
+            for o in ops:
+                for k in ast.walk(o):
+                    if isinstance(k, ast.Constant) and isinstance(k.value, str) and 0 < len(k.value) <= 40:
+                        found.add(k.value)
+    return sorted(found)
 
 
 def _setup():
@@ -65,6 +154,32 @@ def _setup():
     _READY = True
 
 
+def text_classes(t):
+    """coverage tags for a user text / bot message (which layer of the plumbing could mistake it for syntax)"""
+    if t is None:
+        return []
+    out = []
+    if t == "":
+        out.append("text:empty")
+    if t.startswith("$"):
+        out.append("text:dollar-first")
+        if t[1:] and all(ch.isalnum() or ch == "_" for ch in t[1:]) and len(t) < 60:
+            out.append("text:variable-name")
+    elif "$" in t:
+        out.append("text:dollar-inside")
+    if "{{" in t or "{%" in t or "{#" in t:
+        out.append("text:template")
+    if '"' in t or "'" in t or "\\" in t:
+        out.append("text:quote-or-backslash")
+    if "\n" in t or "\r" in t or "\t" in t:
+        out.append("text:control-char")
+    if t and t.strip() != t:
+        out.append("text:blank-edge")
+    if len(t) > 1000:
+        out.append("text:long")
+    return out
+
+
 def rail_name(cat, i):
     return f"{cat} rail {i}"
 
@@ -77,7 +192,11 @@ def colang_source(cfg):
     for cat in ("input", "output", "retrieval"):
         for i, _ in enumerate(cfg.get(cat, [])):
             out.append(f"{kw} {rail_name(cat, i)}")
-            out.append(f'  $verdict = execute scripted_rail(cat="{cat}", idx={i}, text={var[cat]})')
+            if cfg.get("text_from", "param") == "context" and cat != "retrieval":
+                # like the shipped rails (`execute self_check_input`): the action reads the text from the context it is handed
+                out.append(f'  $verdict = execute scripted_rail(cat="{cat}", idx={i})')
+            else:
+                out.append(f'  $verdict = execute scripted_rail(cat="{cat}", idx={i}, text={var[cat]})')
             out.append('  if $verdict.kind == "reject"')
             if cfg.get("exceptions"):
                 out.append(f'    create event {exc[cat]}(message="blocked by {rail_name(cat, i)}")')
@@ -131,6 +250,8 @@ def apply_rail(rules, text):
             k = verdict[0]
             if k == "append":
                 return "rewrite", (text or "") + verdict[1]
+            if k == "prepend":
+                return "rewrite", verdict[1] + (text or "")
             if k == "replace":
                 return "rewrite", verdict[1]
             return k, None
@@ -147,7 +268,7 @@ class Script:
 
 def _cfg_key(cfg):
     return (len(cfg.get("input", [])), len(cfg.get("output", [])), len(cfg.get("retrieval", [])), cfg.get("rail_def", "subflow"),
-            cfg.get("dialog", "general"), bool(cfg.get("exceptions")), cfg.get("predef_text", "Hello there"))
+            cfg.get("dialog", "general"), bool(cfg.get("exceptions")), cfg.get("predef_text", "Hello there"), cfg.get("text_from", "param"))
 
 
 def get_app(cfg):
@@ -165,7 +286,11 @@ def get_app(cfg):
         llm = FakeLLM(responses=[])
         app = LLMRails(config, llm=llm)
 
-    async def scripted_rail(cat: str, idx: int, text=None):
+    from_context = cfg.get("text_from", "param") == "context"
+
+    async def scripted_rail(cat: str, idx: int, text=None, context=None):
+        if from_context and cat != "retrieval":
+            text = (context or {}).get("user_message" if cat == "input" else "bot_message")
         script.calls.append([cat, idx, text])
         kind, new = apply_rail(script.cfg[cat][idx], text)
         if kind == "fault":
